@@ -13,6 +13,7 @@ package common
 //@ -- result0.Snapshot != nil, [count] gives 1..255 transactions): UnmarshalVersionedSnapshot is `NewDecoder(b).DecodeSnapshotWithTopo()` behind a version test.
 //@ -- The two functional clauses were machine-checked against that contract (15/15 obligations) with the frame clause left out; the frame itself (the decoder
 //@ -- writes only the reader and the objects it allocates) is not provable today because DecodeSnapshotWithTopo has no `modifies` clause, hence `assume`.
+//@ uninterp SnapValWf(v mathint) bool
 //@ assume func UnmarshalVersionedSnapshot
 //@   modifies nothing
 //@   ensures [nonnil] err == nil ==> result0 != nil && result0.Snapshot != nil
@@ -22,6 +23,9 @@ package common
 //@ -- object remembers what it was decoded from (SnapSrc, see zz_contracts_verif.go).
 //@   ensures [version] err == nil ==> result0.Snapshot.Version == SnapshotVersionCommonEncoding
 //@   ensures [source] err == nil ==> SnapSrc(result0.Snapshot) == kvval(b)
+//@ -- added for C35 (completeness of the listing): SnapValWf(v) CLASSIFIES value ids -- "the byte string with id v is accepted by the snapshot
+//@ -- decoder" (the decoder is a deterministic function of its input) -- so that a client can say "fails only on an undecodable record"
+//@   ensures [rejects-only-malformed] err != nil ==> !SnapValWf(kvval(b))
 //@ -- added for C07: the decoder accepts only strictly increasing transaction hashes (PROVED: DecodeSnapshotWithTopo [order]); this is what makes
 //@ -- PayloadHash() of a decoded snapshot read-only ((*Snapshot).PayloadHash `requires [canonical]`).
 //@   ensures [order] err == nil ==> TxsCanonical(result0.Snapshot.Transactions)
